@@ -100,6 +100,77 @@ theorem tables_never_written (m : Method) (k : Nat) (ws : WS) :
     ∀ f ∈ callSteps m k ws, Buf.tables ∉ f.writes := by
   cases m <;> cases ws <;> simp [callSteps, footH, wsBuf]
 
+/-! ### Any number of threads -/
+
+section
+variable {Buf V : Type}
+
+/-- `InterleaveN ps r`: `r` is an interleaving of the thread programs `ps` (any number of threads; each keeps its order) -/
+inductive InterleaveN : List (List (Step Buf V)) → List (Step Buf V) → Prop
+  | done {ps} : (∀ p ∈ ps, p = []) → InterleaveN ps []
+  | step {ps r} (k : Nat) (a : Step Buf V) (rest : List (Step Buf V)) :
+      ps[k]? = some (a :: rest) → InterleaveN (ps.set k rest) r → InterleaveN ps (a :: r)
+
+/-- **n threads.**  Thread `i` reads only inside its region `F`; no step of any OTHER thread writes inside `F`.  Then after
+    every interleaving of all the threads, `F` holds exactly what thread `i` alone produces. -/
+theorem interleaveN_indep (F : Buf → Prop) (i : Nat) :
+    ∀ (ps : List (List (Step Buf V))) (r : List (Step Buf V)), InterleaveN ps r →
+    ∀ (p : List (Step Buf V)), ps[i]? = some p →
+    (∀ st ∈ p, ∀ b, st.reads b → F b) →
+    (∀ j q, j ≠ i → ps[j]? = some q → ∀ st ∈ q, ∀ b, st.writes b → ¬ F b) →
+    ∀ s s' : St Buf V, (∀ b, F b → s b = s' b) → ∀ b, F b → runAll r s b = runAll p s' b := by
+  intro ps r h
+  induction h with
+  | @done ps hall =>
+    intro p hp _ _ s s' hs b hb
+    have : p = [] := hall p (List.mem_of_getElem? hp)
+    subst this; exact hs b hb
+  | @step ps r k a rest hk _ ih =>
+    intro p hp hreads hothers s s' hs b hb
+    simp only [runAll, List.foldl_cons]
+    by_cases hki : k = i
+    · subst hki
+      have hpe : p = a :: rest := by rw [hk] at hp; exact (Option.some.inj hp).symm
+      subst hpe
+      have hlen : k < ps.length := by
+        rcases List.getElem?_eq_some_iff.mp hk with ⟨h, _⟩; exact h
+      have := ih rest (by simp [hlen])
+        (fun st hm => hreads st (List.mem_cons_of_mem _ hm))
+        (fun j q hj hq => by
+          have : ps[j]? = some q := by
+            rw [List.getElem?_set] at hq
+            simpa [Ne.symm hj] using hq
+          exact hothers j q hj this)
+        (a.run s) (a.run s') ?_ b hb
+      · simpa [runAll] using this
+      · intro b' hb'
+        by_cases hw : a.writes b'
+        · exact a.local_ s s' (fun c hc => hs c (hreads a List.mem_cons_self c hc)) b' hw
+        · rw [a.frame s b' hw, a.frame s' b' hw]; exact hs b' hb'
+    · have hnw : ∀ b', F b' → ¬ a.writes b' := fun b' hb' hw =>
+        hothers k (a :: rest) hki hk a List.mem_cons_self b' hw hb'
+      have := ih p (by rw [List.getElem?_set]; simp [hki, hp])
+        hreads
+        (fun j q hj hq => by
+          rw [List.getElem?_set] at hq
+          by_cases hjk : k = j
+          · subst hjk
+            have hq' : q = rest := by
+              have h2 := hq
+              simp at h2
+              exact h2.2.symm
+            subst hq'
+            intro st hm
+            exact hothers k (a :: q) hj hk st (List.mem_cons_of_mem _ hm)
+          · simp [hjk] at hq
+            exact hothers j q hj hq)
+        (a.run s) s' ?_ b hb
+      · simpa [runAll] using this
+      · intro b' hb'
+        rw [a.frame s b' (hnw b' hb')]; exact hs b' hb'
+
+end
+
 /-- non-vacuity: a `D` call with private workspace 0 has nine kernel steps, all inside region 0 -/
 example : (callSteps .D 0 (.private_ 0)).length = 9 := by decide
 
